@@ -85,26 +85,38 @@ OffenderName(r) == CASE r \in {"R14"} -> "a" [] r \in {"R17", "R18", "R19", "R17
                      [] r = "R21" -> "nope" [] r = "R22" -> "c" [] r = "R23" -> "a" [] r = "R24" -> "Do" [] OTHER -> "a"
 
 Placements == {"top", "nested", "otherfile", "imported"}
-Surrounds  == {"plain", "with_valid"}
+\* with_valid: an unrelated valid annotation next to the offender; peer_msg: an earlier message that
+\* uses the offender's field type (same kind, same referenced enum / message) without the annotation;
+\* peer_field: the same as an earlier field of the offending message itself (for the nested placement:
+\* of the enclosing message).  A validation that looks at a type or an annotation "once" is wrong there.
+Surrounds  == {"plain", "with_valid", "peer_msg", "peer_field"}
+PeerField(bad) == LET a == CHOOSE f \in Range(bad.fields) : f.name = "a"
+                  IN [a EXCEPT !.name = "v0", !.json = "v0", !.num = 90, !.ann = NoAnn, !.oneof = ""]
+WithPeerField(bad) == [bad EXCEPT !.fields = <<PeerField(bad)>> \o bad.fields]
 
 \* message-level rule r at a placement
 C12MessageCase(P, r, pl, sur) ==
   LET common == <<Child(P), Child2(P)>>
-      extra  == IF sur = "with_valid" THEN <<Good(P)>> ELSE <<>>
+      bad0   == Bad(P, FN(P, "Bad"), r)
+      extra  == CASE sur = "with_valid" -> <<Good(P)>>
+                  [] sur = "peer_msg" -> <<Msg("Peer", FN(P, "Peer"), <<PeerField(bad0)>>)>>
+                  [] OTHER -> <<>>
       svcFile(msgs, deps) == File(P \o "/svc.proto", Pkg(P), GoPkg(P), TRUE, deps,
                                   <<Svc(P, <<PostIn(P, FN(P, "In"))>>)>>, <<In(P), Out(P)>> \o msgs, <<EnumE>>)
-  IN CASE pl = "top"    -> Schema(<<svcFile(common \o extra \o <<Bad(P, FN(P, "Bad"), r)>>, <<>>)>>)
+      pf(b)  == IF sur = "peer_field" THEN WithPeerField(b) ELSE b
+  IN CASE pl = "top"    -> Schema(<<svcFile(common \o extra \o <<pf(bad0)>>, <<>>)>>)
        [] pl = "nested" -> Schema(<<svcFile(common \o extra \o
-                                     <<MsgN("Outer", FN(P, "Outer"), <<F("k", "k", 1, "string", "one")>>,
+                                     <<MsgN("Outer", FN(P, "Outer"),
+                                            <<F("k", "k", 1, "string", "one")>> \o (IF sur = "peer_field" THEN <<PeerField(bad0)>> ELSE <<>>),
                                             <<Bad(P, FN(P, "Outer") \o ".Bad", r)>>)>>, <<>>)>>)
        [] pl = "otherfile" ->
-            Schema(<<File(P \o "/types.proto", Pkg(P), GoPkg(P), TRUE, <<>>, <<>>, common \o <<Bad(P, FN(P, "Bad"), r)>>, <<EnumE>>),
+            Schema(<<File(P \o "/types.proto", Pkg(P), GoPkg(P), TRUE, <<>>, <<>>, common \o (IF sur = "peer_msg" THEN extra ELSE <<>>) \o <<pf(bad0)>>, <<EnumE>>),
                      File(P \o "/svc.proto", Pkg(P), GoPkg(P), TRUE, <<P \o "/types.proto">>,
-                          <<Svc(P, <<PostIn(P, FN(P, "In"))>>)>>, <<In(P), Out(P)>> \o extra, <<>>)>>)
+                          <<Svc(P, <<PostIn(P, FN(P, "In"))>>)>>, <<In(P), Out(P)>> \o (IF sur = "with_valid" THEN extra ELSE <<>>), <<>>)>>)
        [] pl = "imported" ->
             Schema(<<File(P \o "/types.proto", Pkg(P), GoPkg(P), FALSE, <<>>, <<>>, common \o <<Bad(P, FN(P, "Bad"), r)>>, <<EnumE>>),
                      File(P \o "/svc.proto", Pkg(P), GoPkg(P), TRUE, <<P \o "/types.proto">>,
-                          <<Svc(P, <<PostIn(P, FN(P, "In"))>>)>>, <<In(P), Out(P)>> \o extra, <<>>)>>)
+                          <<Svc(P, <<PostIn(P, FN(P, "In"))>>)>>, <<In(P), Out(P)>> \o (IF sur = "with_valid" THEN extra ELSE <<>>), <<>>)>>)
 
 \* HTTP-configuration rules: the offending method next to a valid one
 C12MethodCase(P, r, sur) ==
